@@ -361,10 +361,42 @@ def r5_paths_through_placeholders(ctx, res):
     r6_visited_by_entity(ctx, res)
 
 
+def r6_relation_lexicon_is_the_declaring_one(ctx, res):
+    """the lexicon reported with a relation (Relation.lexicon(), the `id:version` specifier in the relation rows) is the lexicon
+    that DECLARES the relation - the owner of the row in the relation table - not the lexicon of its source or target: a relation
+    an extension declares between two base synsets belongs to the extension.  In each relation query the `lexicons` row the
+    specifier is built from is joined on the relation table's own lexicon_rowid."""
+    from .c11 import REL_QUERIES
+    sc = ctx.schema
+    n = 0
+    for fname, (reltable, tgttable) in REL_QUERIES.items():
+        f = ctx.repo.func('_queries', fname)
+        for site in ctx.sites_of(f.key):
+            for v in site.variants:
+                if v.stmt is None:
+                    continue
+                joins = [(l, r) for l, r, _ in v.stmt.key_comparisons(sc) if ('lexicons', 'rowid') in (l, r)]
+                n += 1
+                key = f'relation-lexicon:{fname}'
+                res.inst(key, site.loc, f'{joins}')
+                if not joins:
+                    res.find(key, site.loc, f'{fname}: the relation rows are not joined to `lexicons` (no specifier of the declaring lexicon)')
+                for l, r in joins:
+                    other = r if l == ('lexicons', 'rowid') else l
+                    if other != (reltable, 'lexicon_rowid'):
+                        res.find(key, site.loc,
+                                 f'{fname} builds the lexicon specifier of a relation from {other[0]}.{other[1]}, not from the relation '
+                                 f'row itself ({reltable}.lexicon_rowid): a relation an extension declares between synsets / senses of '
+                                 f'its base is reported as the base lexicon\'s')
+    if n < 3:
+        raise AnalysisError(f'only {n} relation query variants examined')
+
+
 RULES = [
     ('C12-R1', r1_provenance, 10),
     ('C12-R2', r2_nullness, 2),
     ('C12-R3', r3_order_and_switch, 3),
     ('C12-R4', r4_default_expand, 5),
     ('C12-R5', r5_paths_through_placeholders, 8),
+    ('C12-R6', r6_relation_lexicon_is_the_declaring_one, 3),
 ]
